@@ -341,10 +341,11 @@ class FunctionAnalyser(NodeVisitor):
 
     def visit_Delete(self, node: ast.Delete) -> None:
         """Visit ast.Delete(targets)."""
+        # NOTE The targets are still defined when they are deleted, undefine them after
+        self.generic_visit(node)
+
         for target in node.targets:
             self.context.remove_identifiers_from_context(target)
-
-        self.generic_visit(node)
 
     def _visit_for_loop(self, node: ast.For | ast.AsyncFor) -> None:
         self.context.add_identifiers_to_context(node.target)
